@@ -475,11 +475,12 @@ Proof.
     + rewrite Hen, Hio, Hit.
       destruct (arrow_struct_ungated v "Item" "item" (List.concat (map af_items fs)) None) as (sv' & ch' & Hi);
         [cbn [In]; intuition|].
+      rewrite Hi.
       destruct (vgte v 3 7) eqn:E37.
       * destruct (arrow_struct_end v "end" (map af_end fs) None E37) as (sv'' & ch'' & He).
-        rewrite He. cbn [bind]. rewrite Hi. cbn [bind].
+        rewrite He. cbn [bind].
         eexists. eexists. split; [reflexivity|]. split; [exact Hn|]. reflexivity.
-      * cbn [bind]. rewrite Hi. cbn [bind].
+      * cbn [bind].
         eexists. eexists. split; [reflexivity|]. split; [exact Hn|]. reflexivity.
     + eexists. eexists. split; [reflexivity|]. split; [exact Hn|]. reflexivity.
   - assert (E30 : vgte v 3 0 = false).
